@@ -214,38 +214,7 @@ def check(ctx):
         ok2 = all(from_dq(a) or (a[0] == "adt" and a[1] == "None") for a in alts) and any(from_dq(a) for a in alts)
         dup = any(c.get("fname") in ("clone", "read", "copy", "copy_nonoverlapping") for (_, c) in body.calls)
         ctx.ob("R01.4", f"{k}|returns-container-answer", ok2 and not dup, f"{body.f['file']}:{body.f['line']}", f"returns `{show(r0)[:120]}`; required: the container's dequeue answer (no duplication, no other source)")
-    # ------------------------------------------------------------------ R01.6 full-sync: the lock IS the reservation
-    # FullSyncMove advances `tail` only at publication: between leak_slot_internal (lock taken) and publish_leaked_internal nothing else marks the slot as taken,
-    # so the payload write must happen with the lock still held on every path (a write after a release races with another producer reserving the same slot)
-    import ts
-    eng = ts.Engine(fx)
-    lockp = lambda r: r[0] == "lock" and r[1] and r[1][-1] == "concurrency_guard"
-    n6 = 0
-    for f in fx.fns:
-        body = None
-        for blk in f["blocks"]:
-            t = blk["term"]
-            if t[0] == "Call" and (t[1].get("resolved") or t[1].get("f")) == R.FSM + "::leak_slot_internal": body = Body(f); break
-        if body is None: continue
-        dg = D.Dag(body)
-        an = eng.analyse(f["key"])
-        writes = [(b, c) for (b, c) in body.calls if c.get("f") in WRITE_FNS and not (c.get("f") == "std::ops::FnOnce::call_once" and "report" in show(dg.expr(c["args"][0])))]
-        res = [b for (b, c) in body.calls if (c.get("resolved") or c.get("f")) == R.FSM + "::leak_slot_internal"]
-        pubs = [b for (b, c) in body.calls if (c.get("resolved") or c.get("f")) == R.FSM + "::publish_leaked_internal"]
-        for (wb, wc) in writes:
-            if not any(body.dominates(r, wb) for r in res): continue
-            n6 += 1
-            ok = an.must_hold(wb, lockp) and not an.undecided
-            ctx.ob("R01.6", f"{f['key']}|payload-written-under-the-reservation-lock", ok, body.loc(wb),
-                   "the slot is written with the container's lock held: in the full-sync ring the lock is the reservation (tail only moves at publication)" if ok else
-                   "the slot is written after the container's lock was released: another producer can reserve and publish the same slot meanwhile (lost / phantom event)")
-        for y in [b for b in body.reachable if body.term(b)[0] == "Yield"]:
-            if any(body.dominates(r, y) for r in res) and any(y in body.reach_from(r) and p_ in body.reach_from(y) for r in res for p_ in pubs):
-                n6 += 1
-                ok = an.must_hold(y, lockp)
-                ctx.ob("R01.6", f"{f['key']}|reservation-kept-across-the-await", ok, body.loc(y),
-                       "between reservation and publication the lock (= the reservation) is never given up, not even across the setter's await")
-    ctx.ob("R01.6", "full-sync|instances", n6 >= 3, "", f"{n6} write / await sites between a full-sync reservation and its publication", nontrivial=False)
+    check_full_sync_reservation(ctx, "R01.6")
     # ------------------------------------------------------------------ R01.5 ring shape conditions (shared with C02)
     C02 = importlib.import_module("props.C02")
     C02.check(util.PrefixedCtx(ctx, "R01.5"))
@@ -311,3 +280,38 @@ def _walk_all(e, depth=0):
         yield e
         for x in e:
             if isinstance(x, tuple): yield from _walk_all(x, depth + 1)
+
+def check_full_sync_reservation(ctx, rule):
+    fx = ctx.fx
+    # ------------------------------------------------------------------ R01.6 full-sync: the lock IS the reservation
+    # FullSyncMove advances `tail` only at publication: between leak_slot_internal (lock taken) and publish_leaked_internal nothing else marks the slot as taken,
+    # so the payload write must happen with the lock still held on every path (a write after a release races with another producer reserving the same slot)
+    import ts
+    eng = ts.Engine(fx)
+    lockp = lambda r: r[0] == "lock" and r[1] and r[1][-1] == "concurrency_guard"
+    n6 = 0
+    for f in fx.fns:
+        body = None
+        for blk in f["blocks"]:
+            t = blk["term"]
+            if t[0] == "Call" and (t[1].get("resolved") or t[1].get("f")) == R.FSM + "::leak_slot_internal": body = Body(f); break
+        if body is None: continue
+        dg = D.Dag(body)
+        an = eng.analyse(f["key"])
+        writes = [(b, c) for (b, c) in body.calls if c.get("f") in WRITE_FNS and not (c.get("f") == "std::ops::FnOnce::call_once" and "report" in show(dg.expr(c["args"][0])))]
+        res = [b for (b, c) in body.calls if (c.get("resolved") or c.get("f")) == R.FSM + "::leak_slot_internal"]
+        pubs = [b for (b, c) in body.calls if (c.get("resolved") or c.get("f")) == R.FSM + "::publish_leaked_internal"]
+        for (wb, wc) in writes:
+            if not any(body.dominates(r, wb) for r in res): continue
+            n6 += 1
+            ok = an.must_hold(wb, lockp) and not an.undecided
+            ctx.ob(rule, f"{f['key']}|payload-written-under-the-reservation-lock", ok, body.loc(wb),
+                   "the slot is written with the container's lock held: in the full-sync ring the lock is the reservation (tail only moves at publication)" if ok else
+                   "the slot is written after the container's lock was released: another producer can reserve and publish the same slot meanwhile (lost / phantom event)")
+        for y in [b for b in body.reachable if body.term(b)[0] == "Yield"]:
+            if any(body.dominates(r, y) for r in res) and any(y in body.reach_from(r) and p_ in body.reach_from(y) for r in res for p_ in pubs):
+                n6 += 1
+                ok = an.must_hold(y, lockp)
+                ctx.ob(rule, f"{f['key']}|reservation-kept-across-the-await", ok, body.loc(y),
+                       "between reservation and publication the lock (= the reservation) is never given up, not even across the setter's await")
+    ctx.ob(rule, "full-sync|instances", n6 >= 3, "", f"{n6} write / await sites between a full-sync reservation and its publication", nontrivial=False)
